@@ -2,6 +2,7 @@
 // C18 (Polyglot keys against an independent implementation)
 #include "../ref/refpolyglot.h"
 #include "bridge.h"
+#include "../gen/matepool.h"
 #include "polyglot.h"
 #include "registry.h"
 
@@ -81,6 +82,20 @@ bool prop_C15(Tape& t, Report& rep)
 {
     br::init_engine();
     gen::Root root = gen::gen_root(t, &rep, 80);
+    if (t.chance(1, 15))
+    {
+        // positions in which a special move (en passant incl. through the captured pawn's square, promotions, castling,
+        // discovered / double check) gives check AND mate: the classification of exactly those moves
+        const mp::Pool& P = mp::pool(uint64_t(opt_int("zseed", 1)), opt_int("matepool_tries", 150000), size_t(opt_int("matepool_cap", 16)));
+        int k = int(t.choose(mp::NKIND));
+        if (!P.k[k].empty())
+        {
+            root = gen::Root();
+            root.start = root.cur = P.k[k][t.choose(uint32_t(P.k[k].size()))].p;
+            root.kind = std::string("special_mate_pool:") + mp::KNAME[k];
+            rep.cls("c15:special_mate_pool_root");
+        }
+    }
     rep.decoded = root.describe();
     Position pos = br::from_fen(root.cur);
     if (!c15_position(pos, root.cur, rep, "root: " + root.describe())) return false;
